@@ -300,7 +300,7 @@ impl Gate {
 struct Env {
     vdir: VDir,
     index: Index,
-    writer: IndexWriter,
+    writer: Option<IndexWriter>,
     f: Fields,
     reference: Reference,
     gate: Gate,
@@ -331,32 +331,36 @@ impl Env {
         let gate = Gate::new();
         gate.install(&vdir);
         Env {
-            vdir, index, writer, f, reference: Reference::new(&schema), gate, grp_of: HashMap::new(), next_uid: 1, batch: 0,
+            vdir, index, writer: Some(writer), f, reference: Reference::new(&schema), gate, grp_of: HashMap::new(), next_uid: 1, batch: 0,
             pending: BTreeSet::new(), committed: BTreeSet::new(), dumps: HashMap::new(), log: vec![],
         }
     }
     fn add_docs(&mut self, rng: &mut Rng, n: usize) {
+        self.add_docs_grp(rng, n, None)
+    }
+    /// `grp`: every new doc carries this delete key (the upsert pattern `delete(key); add(key)`)
+    fn add_docs_grp(&mut self, rng: &mut Rng, n: usize, force_grp: Option<u64>) {
         self.batch += 1;
         let marker = format!("only{}", self.batch);
         for _ in 0..n {
             let uid = self.next_uid;
             self.next_uid += 1;
-            let grp = rng.below(5);
+            let grp = force_grp.unwrap_or_else(|| rng.below(5));
             let doc = gen_doc(rng, &self.f, uid, grp, &marker);
             self.reference.add(doc.clone());
-            self.writer.add_document(doc).unwrap();
+            self.writer.as_mut().unwrap().add_document(doc).unwrap();
             self.grp_of.insert(uid, grp);
             self.pending.insert(uid);
         }
         self.log.push(format!("add {n}"));
     }
     fn delete_uid(&mut self, uid: u64) {
-        self.writer.delete_term(Term::from_field_u64(self.f.id, uid));
+        self.writer.as_mut().unwrap().delete_term(Term::from_field_u64(self.f.id, uid));
         self.pending.remove(&uid);
         self.log.push(format!("delete id={uid}"));
     }
     fn delete_grp(&mut self, grp: u64) {
-        self.writer.delete_term(Term::from_field_u64(self.f.grp, grp));
+        self.writer.as_mut().unwrap().delete_term(Term::from_field_u64(self.f.grp, grp));
         let gone: Vec<u64> = self.pending.iter().copied().filter(|u| self.grp_of[u] == grp).collect();
         for u in gone {
             self.pending.remove(&u);
@@ -364,16 +368,32 @@ impl Env {
         self.log.push(format!("delete grp={grp}"));
     }
     fn commit(&mut self) {
-        self.writer.commit().unwrap();
+        self.writer.as_mut().unwrap().commit().unwrap();
         self.committed = self.pending.clone();
         self.reference.sync();
         self.log.push("commit".into());
     }
     fn rollback(&mut self) {
-        self.writer.rollback().unwrap();
-        self.writer.set_merge_policy(Box::new(NoMergePolicy));
+        self.writer.as_mut().unwrap().rollback().unwrap();
+        self.writer.as_mut().unwrap().set_merge_policy(Box::new(NoMergePolicy));
         self.pending = self.committed.clone();
         self.log.push("rollback".into());
+    }
+    /// flush the pending documents into an UNCOMMITTED segment (`prepare_commit()` dropped)
+    fn flush_uncommitted(&mut self) {
+        let prepared = self.writer.as_mut().unwrap().prepare_commit().unwrap();
+        drop(prepared);
+        self.log.push("flush (prepare_commit dropped)".into());
+    }
+    /// let every running merge finish, drop the writer (nothing committed), open a new one
+    fn wait_merges_and_reopen(&mut self) {
+        let w = self.writer.take().unwrap();
+        let _ = w.wait_merging_threads();
+        let w: IndexWriter = self.index.writer_with_num_threads(1, 15_000_000).unwrap();
+        w.set_merge_policy(Box::new(NoMergePolicy));
+        self.writer = Some(w);
+        self.pending = self.committed.clone();
+        self.log.push("wait_merging_threads; reopen".into());
     }
     fn searchable(&self) -> Vec<SegmentMeta> {
         self.index.searchable_segment_metas().unwrap()
@@ -613,7 +633,7 @@ fn case_explicit(ctx: &mut Ctx, case_seed: u64) {
         ids.truncate(take);
         let before = env.dump_searchable().unwrap();
         let srcs: Vec<(SegDump, Vec<u64>)> = ids.iter().map(|id| { let (_, d, u) = before.iter().find(|(s, _, _)| *s == id.uuid_string()).unwrap(); (d.clone(), u.clone()) }).collect();
-        let res = env.writer.merge(&ids).wait();
+        let res = env.writer.as_mut().unwrap().merge(&ids).wait();
         let merged_meta = match res {
             Ok(m) => m,
             Err(e) => {
@@ -658,7 +678,7 @@ fn case_policy(ctx: &mut Ctx, case_seed: u64) {
     if rng.chance(1, 2) {
         policy.set_del_docs_ratio_before_merge(0.2);
     }
-    env.writer.set_merge_policy(Box::new(policy));
+    env.writer.as_mut().unwrap().set_merge_policy(Box::new(policy));
     env.gate.with(|s| s.gate = true);
     let rounds = 3 + rng.usize_below(5);
     for _ in 0..rounds {
@@ -727,8 +747,7 @@ fn case_policy(ctx: &mut Ctx, case_seed: u64) {
         }
     }
     env.gate.with(|s| { s.gate = false; s.permits = 1000; });
-    let Env { writer, .. } = env;
-    let _ = writer.wait_merging_threads();
+    let _ = env.writer.take().unwrap().wait_merging_threads();
 }
 
 const ACTIONS: [&str; 9] = ["delete-commit", "delete-source-commit", "rollback", "delete-all-commit", "overlapping-merge", "disjoint-merge", "gc", "add-commit", "delete-commit-twice"];
@@ -756,7 +775,7 @@ fn case_schedule(ctx: &mut Ctx, case_seed: u64, forced: Option<(usize, u64)>) {
     let before = env.dump_searchable().unwrap();
     let find = |id: &SegmentId| before.iter().find(|(s, _, _)| *s == id.uuid_string()).unwrap();
     let writes0 = env.gate.with(|s| { s.pause_at = Some(k); s.seen = 0; s.paused = false; s.resume = false; s.meta_writes });
-    let fut = env.writer.merge(&src_ids);
+    let fut = env.writer.as_mut().unwrap().merge(&src_ids);
     // paused at op k, or the merge had fewer than k operations and was already published
     env.gate.wait(Duration::from_secs(20), |s| s.paused || s.meta_writes > writes0);
     let paused = env.gate.with(|s| s.paused);
@@ -801,7 +820,7 @@ fn case_schedule(ctx: &mut Ctx, case_seed: u64, forced: Option<(usize, u64)>) {
             expect_discard = paused;
         }
         "delete-all-commit" => {
-            env.writer.delete_all_documents().unwrap();
+            env.writer.as_mut().unwrap().delete_all_documents().unwrap();
             env.pending.clear();
             env.log.push("delete_all".into());
             env.commit();
@@ -810,15 +829,15 @@ fn case_schedule(ctx: &mut Ctx, case_seed: u64, forced: Option<(usize, u64)>) {
         "overlapping-merge" => {
             let mut ids2: Vec<SegmentId> = vec![src_ids[0]];
             ids2.extend(rest_ids.iter().take(1));
-            second = Some(env.writer.merge(&ids2));
+            second = Some(env.writer.as_mut().unwrap().merge(&ids2));
         }
         "disjoint-merge" => {
             if !rest_ids.is_empty() {
-                second = Some(env.writer.merge(&rest_ids));
+                second = Some(env.writer.as_mut().unwrap().merge(&rest_ids));
             }
         }
         "gc" => {
-            let _ = env.writer.garbage_collect_files().wait();
+            let _ = env.writer.as_mut().unwrap().garbage_collect_files().wait();
         }
         "add-commit" => {
             let n = 1 + rng.usize_below(5);
@@ -899,7 +918,7 @@ fn case_uncommitted(ctx: &mut Ctx, case_seed: u64) {
         let mut policy = LogMergePolicy::default();
         policy.set_min_num_segments(2);
         policy.set_min_layer_size(10_000);
-        env.writer.set_merge_policy(Box::new(policy));
+        env.writer.as_mut().unwrap().set_merge_policy(Box::new(policy));
     }
     tantivy::verif::set_segment_cut_docs(cut);
     let mut unc_metas: Vec<SegmentMeta> = vec![];
@@ -913,7 +932,7 @@ fn case_uncommitted(ctx: &mut Ctx, case_seed: u64) {
                 // wait until the worker has registered the segment it just cut
                 let mut found = false;
                 for _ in 0..10_000 {
-                    let (_, unc) = tantivy::verif::c04_registered_segment_metas(&env.writer);
+                    let (_, unc) = tantivy::verif::c04_registered_segment_metas(env.writer.as_ref().unwrap());
                     if let Some(m) = unc.iter().find(|m| !seg_no.contains_key(&m.id().uuid_string())) {
                         found = true;
                         let n = seg_no.len() + 1;
@@ -973,7 +992,7 @@ fn case_uncommitted(ctx: &mut Ctx, case_seed: u64) {
         }
         ids = metas.iter().map(|m| m.id()).collect();
         srcs = metas.iter().map(|m| env.dump_meta(m).unwrap()).collect();
-        res = env.writer.merge(&ids).wait();
+        res = env.writer.as_mut().unwrap().merge(&ids).wait();
         ctx.report.count(if res.is_ok() { "uncommitted:merge-ok" } else { "uncommitted:merge-err" });
         if let Err(e) = &res {
             ctx.report.violation("oracle", "C04:merge-failed", format!("explicit merge of {} uncommitted segments failed: {e}", ids.len()), case.clone());
@@ -1034,8 +1053,7 @@ fn case_uncommitted(ctx: &mut Ctx, case_seed: u64) {
         }
     }
     if by_policy {
-        let Env { writer, .. } = env;
-        let _ = writer.wait_merging_threads();
+        let _ = env.writer.take().unwrap().wait_merging_threads();
         return;
     }
     if finish != 1 {
@@ -1053,6 +1071,279 @@ fn case_uncommitted(ctx: &mut Ctx, case_seed: u64) {
     }
 }
 
+/// merge policy scripted by the harness: when enabled, one candidate holding ALL segments it is
+/// shown (committed and uncommitted sets are shown separately), in a chosen order
+#[derive(Debug, Clone)]
+struct ScriptedPolicy {
+    enabled: Arc<std::sync::atomic::AtomicBool>,
+    rank: Arc<Mutex<HashMap<SegmentId, usize>>>,
+    /// 0 creation order, 1 reverse creation order, 2 by uuid (arbitrary), 3 largest first
+    mode: u64,
+    min: usize,
+}
+
+impl tantivy::indexer::MergePolicy for ScriptedPolicy {
+    fn compute_merge_candidates(&self, segments: &[SegmentMeta]) -> Vec<tantivy::indexer::MergeCandidate> {
+        if !self.enabled.load(std::sync::atomic::Ordering::SeqCst) || segments.len() < self.min {
+            return vec![];
+        }
+        let rank = self.rank.lock().unwrap();
+        let mut v: Vec<&SegmentMeta> = segments.iter().collect();
+        v.sort_by_key(|m| m.id());
+        match self.mode {
+            0 => v.sort_by_key(|m| rank.get(&m.id()).copied().unwrap_or(usize::MAX / 2)),
+            1 => v.sort_by_key(|m| std::cmp::Reverse(rank.get(&m.id()).copied().unwrap_or(usize::MAX / 2))),
+            3 => v.sort_by_key(|m| std::cmp::Reverse(m.max_doc())),
+            _ => {}
+        }
+        vec![tantivy::indexer::MergeCandidate(v.iter().map(|m| m.id()).collect())]
+    }
+}
+
+impl ScriptedPolicy {
+    fn new(mode: u64, enabled: bool) -> ScriptedPolicy {
+        ScriptedPolicy { enabled: Arc::new(std::sync::atomic::AtomicBool::new(enabled)), rank: Arc::new(Mutex::new(HashMap::new())), mode, min: 2 }
+    }
+    /// give every registered segment not seen before the next creation rank
+    fn note_segments(&self, env: &Env) {
+        let (c, u) = tantivy::verif::c04_registered_segment_metas(env.writer.as_ref().unwrap());
+        let mut rank = self.rank.lock().unwrap();
+        let mut fresh: Vec<SegmentId> = c.iter().chain(u.iter()).map(|m| m.id()).filter(|id| !rank.contains_key(id)).collect();
+        fresh.sort();
+        for id in fresh {
+            let n = rank.len();
+            rank.insert(id, n);
+        }
+    }
+}
+
+const MODE_NAMES: [&str; 4] = ["creation-order", "reverse-creation-order", "uuid-order", "largest-first"];
+
+/// E. POLICY-started merges of COMMITTED segments while deletes (and adds) are pending, i.e.
+/// pushed to the writer but not committed. Observed BEFORE any commit, and after commit /
+/// rollback / dropping the writer and reopening: published docs must equal the sequential replay
+/// (a pending delete is invisible until committed and gone after rollback / reopen).
+fn case_pending(ctx: &mut Ctx, case_seed: u64) {
+    let mut rng = Rng(case_seed);
+    let mut env = Env::new(&mut rng);
+    let n = 2 + rng.usize_below(3);
+    build_committed(&mut rng, &mut env, n);
+    let mode = rng.below(4);
+    let trigger = rng.below(3);
+    let finish = rng.below(4);
+    let case = case_json("pending", case_seed, json!({"mode": mode, "trigger": trigger, "finish": finish}));
+    let nseg = env.searchable().len();
+    if nseg < 2 {
+        ctx.report.count("pending:too-few-segments");
+        return;
+    }
+    // pending operations: deletes of committed docs (not committed), maybe adds
+    let committed_now: Vec<u64> = env.committed.iter().copied().collect();
+    if committed_now.is_empty() {
+        return;
+    }
+    if rng.chance(1, 3) {
+        env.add_docs(&mut rng, 1); // some other operation first
+    }
+    for _ in 0..(1 + rng.usize_below(3)) {
+        if rng.chance(1, 3) {
+            env.delete_grp(rng.below(5));
+        } else {
+            env.delete_uid(*rng.pick(&committed_now));
+        }
+    }
+    if env.pending.is_superset(&env.committed) {
+        env.delete_uid(committed_now[0]);
+    }
+    let policy = ScriptedPolicy::new(mode, true);
+    policy.note_segments(&env);
+    let writes0 = env.gate.with(|s| s.meta_writes);
+    let mut expected_writes = 1;
+    // the policy replaces NoMergePolicy; something must make the updater reconsider merges
+    let explicit_ids: Vec<SegmentId> = {
+        let mut v: Vec<SegmentId> = env.searchable().iter().map(|m| m.id()).collect();
+        v.sort();
+        v.truncate(2);
+        v
+    };
+    env.writer.as_mut().unwrap().set_merge_policy(Box::new(policy.clone()));
+    match trigger {
+        0 => {
+            let k = 1 + rng.usize_below(3);
+            env.add_docs(&mut rng, k);
+            env.flush_uncommitted();
+        }
+        1 => {
+            let k = 2 + rng.usize_below(3);
+            tantivy::verif::set_segment_cut_docs(k as u32);
+            env.add_docs(&mut rng, k);
+            for _ in 0..5_000 {
+                let (_, unc) = tantivy::verif::c04_registered_segment_metas(env.writer.as_ref().unwrap());
+                if !unc.is_empty() || env.gate.with(|s| s.meta_writes) > writes0 {
+                    break;
+                }
+                std::thread::sleep(Duration::from_millis(2));
+            }
+            tantivy::verif::set_segment_cut_docs(0);
+        }
+        _ => {
+            // another (explicit) merge ends: end_merge reconsiders merges under the new policy
+            if nseg >= 3 {
+                let _ = env.writer.as_mut().unwrap().merge(&explicit_ids).wait();
+                expected_writes = 2;
+            } else {
+                env.add_docs(&mut rng, 1);
+                env.flush_uncommitted();
+            }
+        }
+    }
+    let merged = env.gate.wait(Duration::from_secs(5), |s| s.meta_writes >= writes0 + expected_writes);
+    ctx.report.count(if merged { "pending:policy-merge-published" } else { "pending:no-policy-merge-seen" });
+    ctx.report.count(&format!("pending-trigger:{}", ["flush-prepare-commit-dropped", "flush-segment-cut", "explicit-merge-ends"][trigger as usize]));
+    ctx.report.count(&format!("policy-order:{}", MODE_NAMES[mode as usize]));
+    ctx.report.traces_validated_against_impl += 1;
+    ctx.report.case(&format!("pending|{mode}|{trigger}|{finish}|{nseg}|{}", env.log.len()), merged);
+    // BEFORE any commit: the pending deletes must be invisible
+    let committed = env.committed.clone();
+    let log_tail = |env: &Env| env.log.iter().rev().take(8).rev().cloned().collect::<Vec<_>>().join("; ");
+    let when = format!("policy merge of committed segments with pending uncommitted deletes, observed BEFORE commit [{}]", log_tail(&env));
+    if !check_index_content(ctx, &mut env, &committed, &when, &case) {
+        return;
+    }
+    let after = match finish {
+        0 => {
+            env.commit();
+            "after commit"
+        }
+        1 => {
+            env.rollback();
+            "after rollback"
+        }
+        2 => {
+            env.wait_merges_and_reopen();
+            "after dropping the writer and reopening"
+        }
+        _ => {
+            env.wait_merges_and_reopen();
+            // a fresh writer: its first stamped operation must not be a delete (C02 finding)
+            env.add_docs(&mut rng, 1);
+            env.commit();
+            "after reopen, add, commit"
+        }
+    };
+    let committed = env.committed.clone();
+    let when = format!("policy merge of committed segments with pending deletes, observed {after} [{}]", log_tail(&env));
+    check_index_content(ctx, &mut env, &committed, &when, &case);
+    if ctx.report.samples.len() < 6 && merged {
+        ctx.report.sample(json!({"case": "pending deletes + policy merge of committed segments", "order": MODE_NAMES[mode as usize], "trigger": trigger, "finish": after, "log": env.log.iter().rev().take(8).collect::<Vec<_>>()}));
+    }
+}
+
+/// F. POLICY merges of UNCOMMITTED segments with in-transaction upserts (`delete(key)` then
+/// `add(key)`), sources in various orders, then commit / rollback; published docs = replay.
+fn case_upsert(ctx: &mut Ctx, case_seed: u64) {
+    let mut rng = Rng(case_seed);
+    let mut env = Env::new(&mut rng);
+    let pre = rng.usize_below(3);
+    if pre > 0 {
+        build_committed(&mut rng, &mut env, pre);
+    }
+    let mode = rng.below(4);
+    let eager = rng.chance(1, 3); // policy active from the start: merges as segments get flushed
+    let nseg = 2 + rng.usize_below(3);
+    let finish = rng.below(3); // 0 commit, 1 commit twice with delete, 2 rollback
+    let flush_by_cut = rng.chance(1, 3);
+    let case = case_json("upsert", case_seed, json!({"mode": mode, "eager": eager, "nseg": nseg, "finish": finish, "flush_by_cut": flush_by_cut}));
+    let policy = ScriptedPolicy::new(mode, eager);
+    policy.note_segments(&env);
+    env.writer.as_mut().unwrap().set_merge_policy(Box::new(policy.clone()));
+    let mut last_deleted: Option<u64> = None;
+    let mut upserts = 0;
+    for _ in 0..nseg {
+        let k = 1 + rng.usize_below(5);
+        let force = if rng.chance(2, 3) { last_deleted } else { None };
+        if force.is_some() {
+            upserts += 1;
+        }
+        if flush_by_cut {
+            let (_, before) = tantivy::verif::c04_registered_segment_metas(env.writer.as_ref().unwrap());
+            tantivy::verif::set_segment_cut_docs(k as u32);
+            env.add_docs_grp(&mut rng, k, force);
+            for _ in 0..5_000 {
+                let (_, unc) = tantivy::verif::c04_registered_segment_metas(env.writer.as_ref().unwrap());
+                if unc.iter().any(|m| !before.iter().any(|b| b.id() == m.id())) || eager {
+                    break;
+                }
+                std::thread::sleep(Duration::from_millis(2));
+            }
+            tantivy::verif::set_segment_cut_docs(0);
+            if eager {
+                std::thread::sleep(Duration::from_millis(5));
+            }
+        } else {
+            env.add_docs_grp(&mut rng, k, force);
+            env.flush_uncommitted();
+        }
+        policy.note_segments(&env);
+        if rng.chance(3, 4) {
+            // delete by the shared key: hits older docs only; later docs with the key must survive
+            let g = match (rng.chance(2, 3), env.pending.iter().next_back()) {
+                (true, Some(u)) => env.grp_of[u],
+                _ => rng.below(5),
+            };
+            env.delete_grp(g);
+            last_deleted = Some(g);
+        } else if rng.chance(1, 2) && env.next_uid > 1 {
+            let u = 1 + rng.below(env.next_uid - 1);
+            env.delete_uid(u);
+        }
+    }
+    // enable the policy; flushing one more segment makes the updater reconsider merges
+    policy.enabled.store(true, std::sync::atomic::Ordering::SeqCst);
+    let k = 1 + rng.usize_below(3);
+    let force = if rng.chance(2, 3) { last_deleted } else { None };
+    if force.is_some() {
+        upserts += 1;
+    }
+    env.add_docs_grp(&mut rng, k, force);
+    env.flush_uncommitted();
+    policy.note_segments(&env);
+    if rng.chance(1, 2) {
+        std::thread::sleep(Duration::from_millis(rng.below(15)));
+    }
+    let after = match finish {
+        0 => {
+            env.commit();
+            "commit"
+        }
+        1 => {
+            env.commit();
+            if env.next_uid > 1 {
+                let u = 1 + rng.below(env.next_uid - 1);
+                env.add_docs(&mut rng, 1);
+                env.delete_uid(u);
+            }
+            env.commit();
+            "commit, add, delete, commit"
+        }
+        _ => {
+            env.rollback();
+            "rollback"
+        }
+    };
+    // all merges done (end_merge may still reconcile / publish after the commit)
+    env.wait_merges_and_reopen();
+    let committed = env.committed.clone();
+    ctx.report.count(&format!("upsert-finish:{after}"));
+    ctx.report.count(&format!("policy-order:{}", MODE_NAMES[mode as usize]));
+    ctx.report.count(if upserts > 0 { "upsert:key-readded-after-delete" } else { "upsert:no-readd" });
+    ctx.report.count(if eager { "upsert:policy-eager" } else { "upsert:policy-enabled-late" });
+    ctx.report.traces_validated_against_impl += 1;
+    ctx.report.case(&format!("upsert|{mode}|{eager}|{nseg}|{finish}|{flush_by_cut}|{upserts}|{}", env.log.len()), true);
+    let when = format!("policy merge of uncommitted segments ({}) with in-transaction deletes and re-adds, then {after} [{}]", MODE_NAMES[mode as usize], env.log.join("; "));
+    check_index_content(ctx, &mut env, &committed, &when, &case);
+}
+
 fn run_case(ctx: &mut Ctx, kind: &str, case_seed: u64, params: &Value) {
     let r = catch_unwind(AssertUnwindSafe(|| match kind {
         "explicit" => case_explicit(ctx, case_seed),
@@ -1065,6 +1356,8 @@ fn run_case(ctx: &mut Ctx, kind: &str, case_seed: u64, params: &Value) {
             case_schedule(ctx, case_seed, forced)
         }
         "uncommitted" => case_uncommitted(ctx, case_seed),
+        "pending" => case_pending(ctx, case_seed),
+        "upsert" => case_upsert(ctx, case_seed),
         _ => {}
     }));
     tantivy::verif::set_segment_cut_docs(0);
@@ -1106,6 +1399,14 @@ pub fn run(ctx: &mut Ctx) {
     for _ in 0..ctx.budget(40, 1500) {
         let s = ctx.rng.next_u64();
         run_case(ctx, "uncommitted", s, &json!({}));
+    }
+    for _ in 0..ctx.budget(30, 1200) {
+        let s = ctx.rng.next_u64();
+        run_case(ctx, "pending", s, &json!({}));
+    }
+    for _ in 0..ctx.budget(40, 1500) {
+        let s = ctx.rng.next_u64();
+        run_case(ctx, "upsert", s, &json!({}));
     }
     let p = ctx.report.distribution.get("translation_validation:programs").copied().unwrap_or(0);
     let d = ctx.report.distribution.get("translation_validation:disagreements_checked").copied().unwrap_or(0);
